@@ -71,6 +71,14 @@ def signatures(tier):
                     sigs.append([t] + [DOUBLE] * j)
         for k, j in ([(4, 6), (5, 7), (6, 8), (5, 8), (6, 7)] if full else [(5, 7), (6, 8)]):
             sigs.append([INT] * k + [DOUBLE] * j + [t])
+    # an aggregate around register exhaustion FOLLOWED by scalars that must still get the left-over registers
+    for t in STRUCTS:
+        for k in ((3, 4, 5, 6) if full else (4, 5)):
+            sigs.append([LONG] * k + [t, LONG, DOUBLE])
+        for j in ((5, 6, 7, 8) if full else (6, 7)):
+            sigs.append([DOUBLE] * j + [t, DOUBLE, LONG])
+        if full:
+            sigs.append([LONG] * 5 + [DOUBLE] * 7 + [t, LONG, DOUBLE, t])
     # pairs of aggregates / mixed orders
     pairs = [(S_ll, S_dd), (S_ld, S_dl), (S_fid, S_ii), (S_lll, S_ii), (LDOUBLE, S_ll), (S_L, DOUBLE), (S_c9, S_fff), (S_ii, S_ii, S_ii, S_ii),
              (S_d, S_d, S_d, S_d, S_d, S_d, S_d, S_d, S_d), (S_ll, S_ll, S_ll, S_ll), (S_ii, S_ii, S_ii, INT, INT, PTR),
@@ -184,8 +192,18 @@ class CallerProbe(e2.Probe):
         if ret:
             self.csrc += "extern %s ro_%s;\n" % (ret.name, fn)
         args = ", ".join("a%d_%s" % (i, fn) for i in range(len(sig)))
-        self.csrc += "void %s(void) { %sg_%s(%s); }\n" % (fn, "ro_%s = " % fn if ret else "", fn, args)
-        self.extern_ret = {"g_" + fn: self.callee_model}
+        self.csrc += "void mk_%s(void);\n" % fn
+        self.csrc += "void %s(void) { mk_%s(); %sg_%s(%s); mk_%s(); }\n" % (fn, fn, "ro_%s = " % fn if ret else "", fn, args, fn)
+        self.extern_ret = {"g_" + fn: self.callee_model, "mk_" + fn: self.mark_model}
+
+    def mark_model(self, s, ev):
+        """marker: clobbers caller-saved registers, leaves memory alone"""
+        m = s.m
+        for r in ("rax", "rcx", "rdx", "rsi", "rdi", "r8", "r9", "r10", "r11"):
+            s.regs[r] = m.fresh_bv("mk_" + r)
+        for i in range(16):
+            s.xmm[i] = m.fresh_bv("mk_xmm%d" % i)
+        s.undef_flags()
 
     def callee_model(self, s, ev):
         """an arbitrary psABI-conforming callee: clobbers caller-saved registers, returns arbitrary values"""
@@ -220,11 +238,16 @@ class CallerProbe(e2.Probe):
             if s.dead:
                 continue
             H = H0 + s.pc
-            calls = [e for e in s.events if e.kind == "call"]
-            if len(calls) != 1:
-                out.append(e2.Goal("onecall/p%d" % pi, H, z3.BoolVal(False), note="%d calls" % len(calls)))
+            marks = [e for e in s.events if e.kind == "call" and e.name == "mk_" + self.fn]
+            calls = [e for e in s.events if e.kind == "call" and e.name != "mk_" + self.fn]
+            if len(calls) != 1 or len(marks) != 2:
+                out.append(e2.Goal("onecall/p%d" % pi, H, z3.BoolVal(False), note="%d calls, %d marks" % (len(calls), len(marks))))
                 continue
             ev = calls[0]
+            out.append(e2.Goal("rsp-restored/p%d" % pi, H, marks[0].regs["rsp"] == marks[1].regs["rsp"],
+                               note="the stack pointer after the call sequence differs from before it"))
+            if len(marks[0].st) != len(marks[1].st):
+                out.append(e2.Goal("x87-restored/p%d" % pi, H, z3.BoolVal(False), note="x87 depth changed across the call sequence"))
             out.append(e2.Goal("align/p%d" % pi, H, z3.Extract(3, 0, ev.regs["rsp"]) == bv(0, 4), note="rsp not 16-byte aligned at the call"))
             if len(ev.st) != 0:
                 out.append(e2.Goal("x87empty/p%d" % pi, H, z3.BoolVal(False), note="x87 depth %d at call" % len(ev.st)))
@@ -388,8 +411,9 @@ def roundtrip_sources(sig, ret, chibicc_callee):
             setret += "  r%s = %s;\n" % (path, field_value(9, j, ft))
             retchk += "  if (r%s != %s) return %d;\n" % (path, field_value(9, j, ft), 50 + j)
     rt = ret.name if ret else "int"
-    callee = "%s%s callee(%s) { extern int status; status = check(%s); %s r; memset(&r, 0, sizeof r);\n%s  return r; }\n" % (
-        "", rt, params, ", ".join("a%d" % i for i in range(len(sig))), rt if ret else "int", setret) if ret else \
+    junk = "  __asm__ volatile(\"mov $0x5a5a5a5a5a5a5a5a, %%rdx; movq %%rdx, %%xmm1\" ::: \"rdx\", \"xmm1\");\n"
+    callee = "%s%s callee(%s) { extern int status; status = check(%s); %s r; memset(&r, 0, sizeof r);\n%s%s  return r; }\n" % (
+        "", rt, params, ", ".join("a%d" % i for i in range(len(sig))), rt if ret else "int", setret, "JUNK") if ret else \
         "int callee(%s) { return check(%s); }\n" % (params, ", ".join("a%d" % i for i in range(len(sig))))
     check = "int check(%s) {\n%s  return 0;\n}\n" % (params, chk)
     inits = ""
@@ -400,10 +424,13 @@ def roundtrip_sources(sig, ret, chibicc_callee):
                 continue
             inits += "  v%d%s = %s;\n" % (i, path, field_value(i, j, ft))
     args = ", ".join("v%d" % i for i in range(len(sig)))
+    # after the checked call the chibicc-compiled caller repeats the call: a stack pointer that is not restored
+    # after each call sequence exhausts the stack
+    rep = "" if chibicc_callee else "  for (long k_ = 0; k_ < 3000000; k_++) callee(%s);\n" % args
     if ret:
-        caller = "int caller(void) {\n%s  %s r = callee(%s);\n  if (status) return status;\n%s  return 0;\n}\n" % (inits, rt, args, retchk)
+        caller = "int caller(void) {\n%s  %s r = callee(%s);\n  if (status) return status;\n%s%s  return 0;\n}\n" % (inits, rt, args, retchk, rep)
     else:
-        caller = "int caller(void) {\n%s  return callee(%s);\n}\n" % (inits, args)
+        caller = "int caller(void) {\n%s  int r_ = callee(%s); if (r_) return r_;\n%s  return 0;\n}\n" % (inits, args, rep)
     pre = "#include <string.h>\n" + d + "int status;\n"
     # unions: only the first member is compared
     for t in sig:
@@ -411,6 +438,10 @@ def roundtrip_sources(sig, ret, chibicc_callee):
             check = check.replace("a%d.b !=" % sig.index(t), "0 !=")
     proto_callee = "%s callee(%s);\n" % (rt, params)
     proto_check = "int check(%s);\n" % params
+    if chibicc_callee:
+        callee = callee.replace("JUNK", "")
+    else:
+        callee = callee.replace("JUNK", junk)     # gcc callee: registers that are not part of the return value hold junk
     if chibicc_callee:
         probe = pre.replace("int status;", "extern int status;") + check + callee.replace("extern int status; ", "")
         # make stale stack contents unlucky: the bytes just above the outgoing arguments are junk
